@@ -120,6 +120,13 @@ def zsort(s):
     return SORTS[s] if isinstance(s, str) else s
 
 
+class DictLit:
+    """``{k1: v1, ...}`` with computed keys: the evaluated (key, value) pairs in source order"""
+
+    def __init__(self, items):
+        self.items = items
+
+
 class Opq:
     """Opaque Python value (dtype objects, strings, arbitrary objects)."""
 
@@ -1312,6 +1319,8 @@ class Engine:
                     raise Unsupported("comprehension element that branches or is not a scalar")
                 term = got[0]
                 return k(Vec(n, lambda i: z3.substitute(term, (q, i if _is_z3(i) else z3.IntVal(i)))), s0)
+            if kind == "dict" and isinstance(it, Opq) and self._is_items_filter(e):
+                return self.filter_dict_opq(e, g, s0, fr, k)
             if isinstance(it, Opq) or (isinstance(it, Ref) and it.kind in ("iter",)):
                 self.assumptions.add(f"comprehension at line {e.lineno} of {self.cur.key}: element expressions have no "
                                      "side effects; the result is an opaque value")
@@ -1328,6 +1337,43 @@ class Engine:
                 return k(res, s0)
             raise Unsupported(f"comprehension over {type(it).__name__}")
         return self.ev(g.iter, st, fr, with_iter)
+
+    @staticmethod
+    def _is_items_filter(e):
+        """``{k: v for k, v in X.items() if cond}`` - an identity dict comprehension with a filter"""
+        g = e.generators[0]
+        return (isinstance(g.iter, ast.Call) and isinstance(g.iter.func, ast.Attribute) and g.iter.func.attr == "items"
+                and not g.iter.args and isinstance(g.target, ast.Tuple) and len(g.target.elts) == 2
+                and all(isinstance(x, ast.Name) for x in g.target.elts)
+                and isinstance(e.key, ast.Name) and e.key.id == g.target.elts[0].id
+                and isinstance(e.value, ast.Name) and e.value.id == g.target.elts[1].id)
+
+    def filter_dict_opq(self, e, g, st, fr, k):
+        """Trusted model of ``{k: v for k, v in X.items() if cond(k, v)}`` over an opaque dict X: a dict holding exactly
+        the items of X that satisfy the condition (stated with the uninterpreted contains / getitem of opaque values)."""
+        got = []
+        self.ev(g.iter.func.value, st, fr, lambda v, s1: got.append(v))
+        if len(got) != 1 or not isinstance(got[0], Opq):
+            raise Unsupported("filtering dict comprehension over a non-opaque dict")
+        src = got[0].t
+        kq = self.fresh("fk", "V")
+        gi = z3.Function("getitem", V, V, V)
+        ct = z3.Function("contains", V, V, z3.BoolSort())
+        conds = []
+
+        def bound(s2):
+            return self.ev_list(list(g.ifs), s2, fr, lambda vs, s3: conds.append([self.truth(v) for v in vs]))
+        self.assign(g.target, (Opq(kq), Opq(gi(src, kq))), st, fr, bound, e)
+        if len(conds) != 1:
+            raise Unsupported("filter condition that branches")
+        cond = z3.And(*conds[0]) if conds[0] else z3.BoolVal(True)
+        res = self.fresh(f"filtered_dict_{self.comp_ordinal(e)}", "V")
+        q = z3.Const("fq", V)
+        cq = z3.substitute(cond, (kq, q))
+        self.assumptions.add("library model: a filtering dict comprehension over X.items() keeps exactly the items satisfying its condition")
+        st = st.assume(z3.ForAll([q], ct(res, q) == z3.And(ct(src, q), cq), patterns=[ct(res, q)]))
+        st = st.assume(z3.ForAll([q], z3.Implies(ct(res, q), gi(res, q) == gi(src, q)), patterns=[gi(res, q)]))
+        return k(Opq(res), st)
 
     def filter_list(self, it, g, st, fr, k, node):
         """Trusted model of a filtering list comprehension over a symbolic list: a new list holding exactly the
@@ -1398,7 +1444,11 @@ class Engine:
                 return k(out, s)
             return self.ev_list(e.values, st, fr, cont)
         if not all(isinstance(key, ast.Constant) and isinstance(key.value, str) for key in e.keys):
-            raise Unsupported("dict literal with non-constant keys")
+            # computed keys: a literal kept as a list of (key, value) pairs (consumed by store hooks)
+            def cont2(vals, s):
+                n = len(e.keys)
+                return k(DictLit(list(zip(vals[:n], vals[n:]))), s)
+            return self.ev_list(list(e.keys) + list(e.values), st, fr, cont2)
 
         def cont(vals, s):
             return k({key.value: v for key, v in zip(e.keys, vals)}, s)
@@ -1507,9 +1557,8 @@ class Engine:
             return go(0, st)
         if isinstance(tgt, ast.Attribute):
             return self.ev(tgt.value, st, fr, lambda obj, s: self.setattr(obj, tgt.attr, v, s, fr, k, node))
-        if isinstance(tgt, ast.Subscript) and isinstance(tgt.value, ast.Name) and self.cur is not None \
-                and tgt.value.id in self.cur.store_hooks:
-            h = self.cur.store_hooks[tgt.value.id]
+        if isinstance(tgt, ast.Subscript) and self.cur is not None and dotted_name(tgt.value) in self.cur.store_hooks:
+            h = self.cur.store_hooks[dotted_name(tgt.value)]
             return self.ev(tgt.slice, st, fr, lambda key, s1: k(h(self, s1, key, v, node)))
         if isinstance(tgt, ast.Subscript) and isinstance(tgt.value, (ast.Name, ast.Attribute)):
             # ``d[key] = v`` on a literal dict held by value: rebind the location to the updated dict
@@ -1756,8 +1805,8 @@ class Engine:
     def ex_Delete(self, s, st, fr, k):
         hooks = self.cur.store_hooks if self.cur else {}
         for t in s.targets:
-            if isinstance(t, ast.Subscript) and isinstance(t.value, ast.Name) and ("del:" + t.value.id) in hooks:
-                h = hooks["del:" + t.value.id]
+            if isinstance(t, ast.Subscript) and dotted_name(t.value) is not None and ("del:" + dotted_name(t.value)) in hooks:
+                h = hooks["del:" + dotted_name(t.value)]
                 return self.ev(t.slice, st, fr, lambda key, s1: k(h(self, s1, key, None, s)))
         return k(st)
 
